@@ -2,14 +2,17 @@
 """writes SENSITIVITY.md from seeded/*/meta.json and seeded/*/check_*.json"""
 import json, glob, os
 rows = []
-for d in sorted(glob.glob("/verif/seeded/C*m[0-9]")):
+for d in sorted(glob.glob("/verif/seeded/C*m[0-9]") + glob.glob("/verif/seeded/C*_rf[0-9]")):
     meta = json.load(open(d + "/meta.json"))
     res = {}
     for t in ("quick", "thorough"):
         p = d + "/check_%s.json" % t
         if os.path.exists(p):
             r = json.load(open(p))
-            res[t] = "DETECTED" if r.get("exit") == 1 else ("missed (exit 0)" if r.get("exit") == 0 else "inconclusive (exit 2)")
+            if "refactor" in meta.get("kind", ""):
+                res[t] = "FALSE ALARM (exit 1)" if r.get("exit") == 1 else ("pass (exit 0)" if r.get("exit") == 0 else "inconclusive (exit 2)")
+            else:
+                res[t] = "DETECTED" if r.get("exit") == 1 else ("missed (exit 0)" if r.get("exit") == 0 else "inconclusive (exit 2)")
             res[t + "_lines"] = r.get("lines", [])[:2]
             res[t + "_wall"] = r.get("wall_s")
     # record in meta.json what was run against this change and what it said
@@ -23,7 +26,7 @@ for d in sorted(glob.glob("/verif/seeded/C*m[0-9]")):
     if runs:
         meta["checks_run"] = runs
         json.dump(meta, open(d + "/meta.json", "w"), indent=1)
-    what = " ".join(meta["needs_to_manifest"][:2])[:200].replace("|", "/").replace("\n", " ")
+    what = ("[behaviour-preserving] " if "refactor" in meta.get("kind", "") else "") + " ".join(meta["needs_to_manifest"][:2])[:200].replace("|", "/").replace("\n", " ")
     rows.append((os.path.basename(d), meta["property"], what, res, meta.get("note", ""), meta.get("checks_run")))
 L = ["# SENSITIVITY — seeded changes vs. checks", "",
      "Each seeded change was written by an independent sub-agent that saw only the text of one property and a scratch worktree of /repo; it compiles, passes the",
@@ -38,7 +41,10 @@ for name, prop, what, res, note, cr in rows:
         rem = ls[0][:180]
     L.append("| %s | %s | %s | %s | %s | %s |" % (name, prop, what, res.get("quick", "-"), res.get("thorough", "-"), rem.replace("|", "/")))
 L += ["", "Verdicts: DETECTED = exit 1 with a VIOLATION line whose counterexample reproduced on the changed code; inconclusive = exit 2 (the change uses a construct",
-      "outside the encoded subset, or the bound no longer covers the code: fail-closed, never reported as a pass); missed = exit 0.", ""]
+      "outside the encoded subset, or the bound no longer covers the code: fail-closed, never reported as a pass); missed = exit 0.",
+      "Rows marked [behaviour-preserving] are refactors under which the property still holds: the wanted verdict is pass (exit 0); exit 1 there would be a false alarm.", ""]
 open("/verif/SENSITIVITY.md", "w").write("\n".join(L) + "\n")
 det = sum(1 for r in rows if r[3].get("quick") == "DETECTED" or r[3].get("thorough") == "DETECTED")
-print(len(rows), "changes;", det, "detected")
+rf = [r for r in rows if "_rf" in r[0]]
+print(len(rows) - len(rf), "breaking changes;", det, "detected;", len(rf), "behaviour-preserving refactors:", sum(1 for r in rf if r[3].get("quick") == "pass (exit 0)"), "pass,",
+      sum(1 for r in rf if "inconclusive" in r[3].get("quick", "")), "inconclusive,", sum(1 for r in rf if "FALSE" in r[3].get("quick", "")), "false alarms")
